@@ -12,6 +12,7 @@ import (
 	"verifharness/gen"
 	"verifharness/mc"
 	"verifharness/props/reg"
+	"verifharness/sched"
 )
 
 func init() { reg.Register(&reg.Prop{ID: "C04", Run: Run, Replay: Replay}) }
@@ -343,6 +344,9 @@ func Run(r *mc.Run) {
 		return true
 	})
 
+	// the same entry points called at the same time on independent inputs: every schedule of small thread programs (instrumented build)
+	sched.Explore(r, "concurrent-calls", ConcurrentPrograms())
+
 	// spacing deviations
 	k := r.Pick(1, 2)
 	small := gen.DepFields(reps, 2)
@@ -497,6 +501,9 @@ func constructed(p gen.APoss) []MalIn {
 }
 
 func Replay(scenario string, raw json.RawMessage) []*mc.Violation {
+	if scenario == "concurrent-calls" {
+		return sched.Replay(scenario, ConcurrentPrograms(), raw)
+	}
 	if scenario == "single-edit-corruptions" || scenario == "constructed-malformations" {
 		var in MalIn
 		if mc.UnmarshalInput(raw, &in) == nil {
